@@ -295,6 +295,6 @@ def run_shard(spec, col: Collector):
 
 def plan(tier, seed, scale=1.0):
     q = tier == "quick"
-    n, copies = (250, 8) if q else (5000, 16)
+    n, copies = (250, 8) if q else (20000, 16)
     return [dict(shard=f"l{c}", n=int(n * scale), budget_s=60 if q else 900, timeout_s=180 if q else 1500,
                  hash_seed=(seed * 53 + c) % 4294967295) for c in range(copies)]
